@@ -91,6 +91,7 @@ type MRealm struct {
 	Strict        bool
 	AllowDisclose bool
 	MetaStrict    bool
+	MetaModify    bool // wamp.session.modify_details is provided
 	Sess          map[int]*MSess
 	Subs          []*MSub
 	NoKill        bool // this realm was configured without the kill procedures
